@@ -89,6 +89,12 @@ class RoundTrip(Obligation):
             algs=[some(VecO([mk_string('sha256'),mk_string('sha512')])),none(),some(VecO([])),some(VecO([mk_string('sha512'),mk_string('sha256')]))][ak]
             pub=bytes(FIXTURE_ED25519_PUB)
             kid=[ed25519_keyid(pub),ed25519_keyid_noalgs(pub),ed25519_keyid(pub,()),ed25519_keyid(pub,('sha512','sha256'))][ak]
+            if run.pick(2,'keytype')==1:
+                # an ECDSA P-256 key (65-byte uncompressed point; the crate keeps the bytes as they are)
+                pub=bytes([4]+[(3*i+1)&0xff for i in range(64)]); names=[('sha256','sha512'),None,(),('sha512','sha256')][ak]
+                canon='{%s"keytype":"ecdsa","keyval":{"public":"%s"},"scheme":"ecdsa-sha2-nistp256"}'%('' if names is None else '"keyid_hash_algorithms":[%s],'%','.join('"%s"'%a for a in names),pub.hex())
+                import hashlib
+                return b.struct('PublicKey',typ=b.variant('KeyType','Ecdsa'),key_id=b.keyid(hashlib.sha256(canon.encode()).hexdigest()),scheme=b.variant('SignatureScheme','EcdsaP256Sha256'),keyid_hash_algorithms=algs,value=Agg('PublicKeyValue',[u8vec(list(pub))]))
             k=b.struct('PublicKey',typ=b.variant('KeyType','Ed25519'),key_id=b.keyid(kid),scheme=b.variant('SignatureScheme','Ed25519'),keyid_hash_algorithms=algs,value=Agg('PublicKeyValue',[u8vec(list(pub))]))
             return k
         if w=='link':
